@@ -40,8 +40,9 @@ PROPS = {
         assumptions=["operations on one peer's tracker are serialised by its mutex (each op is one atomic step)"],
     ),
     'C18': dict(
-        driver='publisher', monitors=['MON18'], proof_files=['PublisherProofs.v'],
-        level_text="Refinement theorem C18_holds: for every call sequence the publisher model (two inverse indexes, snapshot range loops, closed flag) delivers, call by call, exactly what the active-subscriptions specification allows (each publish once to exactly the active subscribers, exactly one close per ended subscription, nothing after shutdown); C18_registry_consistent: both indexes describe one duplicate-free set in every reachable state. The model is run against the real notifications publisher on generated call sequences each run (a marker publish waits for the command queue to drain) and the same monitor is evaluated on the implementation's deliveries.",
+        drivers=[dict(driver='publisher', monitors=['MON18']), dict(driver='pubburst', monitors=['MON18B'])],
+        proof_files=['PublisherProofs.v'], coq_targets=['theories/PublisherBurst.vo'],
+        level_text="Refinement theorem C18_holds: for every call sequence the publisher model (two inverse indexes, snapshot range loops, closed flag) delivers, call by call, exactly what the active-subscriptions specification allows (each publish once to exactly the active subscribers, exactly one close per ended subscription, nothing after shutdown); C18_registry_consistent: both indexes describe one duplicate-free set in every reachable state. The model is run against the real notifications publisher on generated call sequences each run (a marker publish waits for the command queue to drain) and the same monitor is evaluated on the implementation's deliveries; a second driver issues bursts of 20-270 calls while the publisher's goroutine is held inside a blocked subscriber callback (so its command queue really fills) and compares every subscriber's complete log with the log the model prescribes.",
         level_note="Kernel-checked over the Gallina model; calls are issued sequentially so the FIFO command queue makes processing order = call order (concurrent callers are not modelled here; C16 covers the message-queue use). Order of several closes to one subscriber within one call is unconstrained.",
         trusted=["harness synchronisation: a marker event on a private topic is used to wait for the publisher goroutine after each call; after shutdown a bounded wait (400ms) is used"],
         assumptions=["API calls are issued one after another (the publisher's own goroutine is the only concurrency)"],
